@@ -2,6 +2,7 @@
 specification), G (replay of TLC's emissions on the real code) and V (trace
 validation of recorded real executions) as described in DESIGN.md section 5."""
 import json
+import re
 import os
 import subprocess
 
@@ -13,7 +14,8 @@ def replay(ctx, path):
     r = json.load(open(path))
     case = os.path.join(ctx.scratch, "replay.json")
     json.dump(r.get("replay", r), open(case, "w"))
-    p = subprocess.run([ctx.vh_path, "replay", case], capture_output=True, text=True, cwd=ctx.scratch)
+    env = dict(os.environ, VH_PROP=ctx.prop)
+    p = subprocess.run([ctx.vh_path, "replay", case], capture_output=True, text=True, cwd=ctx.scratch, env=env)
     res = None
     for line in p.stdout.splitlines():
         if line.startswith("RESULT "):
@@ -24,10 +26,19 @@ def replay(ctx, path):
         print("replay not possible: %s" % ((res or {}).get("error") or p.stderr[-500:]))
         return 2
     if res.get("n_mismatch", 0) > 0:
+        fresh = []
         for m in res["mismatches"]:
+            kf = [k for k in ctx.known if k["property"] == ctx.prop and re.search(k["sig"], m["sig"])]
+            if kf:
+                print("KNOWN-FINDING: property=%s %s" % (ctx.prop, kf[0]["what"][:300]))
+            else:
+                fresh.append(m)
+        for m in fresh:
             print("still contradicts the specification: " + m["what"][:500])
-        print("VIOLATION property=%s replay=%s" % (ctx.prop, path))
-        return 1
+        if fresh:
+            print("VIOLATION property=%s replay=%s" % (ctx.prop, path))
+            return 1
+        return 0
     print("the recorded case no longer contradicts its expectation on this tree")
     return 0
 
